@@ -187,6 +187,10 @@ pub struct MahaCase {
     /// the three points are multiplied by 2^log2_scale (tiny and large magnitudes, nearly coincident points)
     #[serde(default)]
     pub log2_scale: i32,
+    /// log10 of the singular-value ratio the case was built with (covariance cond = 10^(2 lc)); absent in
+    /// older stored cases, which used 1 for f32 and 2 for f64
+    #[serde(default)]
+    pub lc: Option<f64>,
 }
 
 /// n x (n-1) matrix with orthonormal columns orthogonal to the all-ones vector
@@ -205,9 +209,11 @@ fn helmert(n: usize) -> Mat {
 }
 
 fn strat_maha(_t: Tier) -> BoxedStrategy<MahaCase> {
-    (1usize..=8, prop::bool::weighted(0.3), 0u8..4)
-        .prop_flat_map(|(d, f32, kind)| {
-            let lc = if f32 { 1.0 } else { 2.0 }; // singular-value ratio; covariance cond = 10^(2 lc) <= 1e4 (f32: 1e2)
+    (1usize..=8, prop::bool::weighted(0.3), 0u8..4, any::<bool>())
+        .prop_flat_map(|(d, f32, kind, wide)| {
+            // singular-value ratio; covariance cond = 10^(2 lc) <= 1e4 in both widths (every other f32 case stays at 1e2,
+            // where the relative tolerance is still tight)
+            let lc = if f32 && !wide { 1.0 } else { 2.0 };
             let m: BoxedStrategy<(Mat, bool, bool)> = match kind {
                 0 => Just((Mat::eye(d), false, true)).boxed(),
                 1 => (d + 2..=d + 12)
@@ -221,9 +227,9 @@ fn strat_maha(_t: Tier) -> BoxedStrategy<MahaCase> {
                     .boxed(),
                 _ => (spectrum(d, 2.0 * lc).prop_flat_map(sym_from_eigs), pow2(-6, 6)).prop_map(|(a, s)| (a.scale(s), false, false)).boxed(),
             };
-            (m, triple(d), Just(f32), prop_oneof![2 => Just(0i32), 1 => -40i32..=20, 1 => -30i32..=-20])
+            (m, triple(d), Just(f32), prop_oneof![2 => Just(0i32), 1 => -40i32..=20, 1 => -30i32..=-20], Just(lc))
         })
-        .prop_map(|((m, from_data, identity), (x, y, z), f32, k)| MahaCase { f32, m, from_data, identity, x, y, z, log2_scale: if f32 { k.max(-20).min(10) } else { k } })
+        .prop_map(|((m, from_data, identity), (x, y, z), f32, k, lc)| MahaCase { f32, m, from_data, identity, x, y, z, log2_scale: if f32 { k.max(-20).min(10) } else { k }, lc: Some(lc) })
         .boxed()
 }
 
@@ -252,7 +258,8 @@ fn maha_run<T: RealNumber>(case: &MahaCase, ctx: &mut Ctx) -> Result<(), Fail> {
     let d = |a: &Vec<T>, b: &Vec<T>| -> Result<f64, Fail> { Ok(ft(no_panic("mahalanobis", || dist.distance(a, b))?)) };
     let (dxy, dyx, dyz, dxz, dxx) = (d(&tx, &ty)?, d(&ty, &tx)?, d(&ty, &tz)?, d(&tx, &tz)?, d(&tx, &tx)?);
     let eps = ft(T::epsilon());
-    let cond = if case.f32 { 1e2 } else { 1e4 };
+    let cond = 10f64.powf(2.0 * case.lc.unwrap_or(if case.f32 { 1.0 } else { 2.0 }));
+    ctx.label_if(case.f32 && cond > 1e3, "f32-cond-1e4");
     let rel = 64.0 * eps * cond * (x.len() as f64 + 2.0) * if case.from_data { m.r as f64 * 8.0 } else { 1.0 };
     ensure!(dxx == 0.0, "mahalanobis/identity", "d(x,x) = {:e}", dxx);
     ensure!(dxy >= 0.0 && dyz >= 0.0 && dxz >= 0.0, "mahalanobis/negative", "negative or NaN distance {:e} {:e} {:e}", dxy, dyz, dxz);
@@ -328,7 +335,7 @@ pub fn property() -> Property {
     Property {
         id: "C17",
         quick_mult: 100,
-        rule: "triples of vectors of length 1..30 (random dyadic, equal, one-coordinate differences, collinear, small integers), scaled by 2^k with k drawn over the whole range in which |d|^p*len stays finite and normal for the type under test (computed per case), p in 1..8; Hamming on integer vectors over alphabets of 2..5 symbols; Mahalanobis from SPD covariances Q diag(l) Q^T (cond <= 1e4, f32: 1e2), the identity, and from constructed full-rank data (centred part = Helmert * orthonormal * diag(s) * V^T). non-trivial = length >= 2 and the three points are not collinear (Hamming: pairwise different); distinct = distinct serialised case",
+        rule: "triples of vectors of length 1..30 (random dyadic, equal, one-coordinate differences, collinear, small integers), scaled by 2^k with k drawn over the whole range in which |d|^p*len stays finite and normal for the type under test (computed per case), p in 1..8; Hamming on integer vectors over alphabets of 2..5 symbols; Mahalanobis from SPD covariances Q diag(l) Q^T (cond <= 1e4 in f64 and f32; half of the f32 cases <= 1e2), the identity, and from constructed full-rank data (centred part = Helmert * orthonormal * diag(s) * V^T). non-trivial = length >= 2 and the three points are not collinear (Hamming: pairwise different); distinct = distinct serialised case",
         assumptions: vec![
             "Hamming distance is the fraction of differing positions (the definition the module documents)".into(),
             "closed-form agreement is relative: 128*eps*(len+4p+4) for the p-norms, 64*eps*cond*(len+2) for Mahalanobis".into(),
